@@ -242,11 +242,96 @@ def sentinels(rep, rule="L6"):
     rep.floor("reserved exponents of the portable float form", n, 4)
 
 
+ARTEFACT_UNITS = ["util.c", "sexpr.c", "genc.c", "ccode.c", "genlisp.c", "java/genjava.c", "java/javacode.c", "foam.c"]
+
+
+def _float_convs_digest(f):
+    import re
+    base = f.unit.split("/")[-1]
+    out = []
+    for name, fn in f.funcs.items():
+        if "body" not in fn or not fn.get("file", "").endswith(base):
+            continue
+        par = None
+        for c in calls(fn["body"]):
+            if c.get("callee") not in ("sprintf", "snprintf", "strPrintf", "bufPrintf", "aStrPrintf", "ccoPrintf", "ostreamPrintf"):
+                continue
+            args = c["c"][1:]
+            fi = fmt = None
+            for i, a in enumerate(args):
+                sv = string_value(a)
+                if sv is not None and "%" in sv:
+                    fi, fmt = i, sv
+                    break
+            if fi is None:
+                continue
+            k = fi + 1
+            for m in re.finditer(r"%([#0 +-]*)(\*|\d+)?(?:\.(\*|\d+))?(l|ll|h|L)?([a-zA-Z%])", fmt):
+                fl, w, pr, ln, cv = m.groups()
+                if cv == "%":
+                    continue
+                if w == "*":
+                    k += 1
+                prec = 6
+                if pr == "*":
+                    prec = const_value(args[k]) if k < len(args) else None
+                    k += 1
+                elif pr is not None:
+                    prec = int(pr)
+                if cv in "gGeE":
+                    v = args[k] if k < len(args) else None
+                    s_ = v
+                    while s_ is not None and s_["k"] in ("ImplicitCastExpr", "ParenExpr", "CStyleCastExpr"):
+                        s_ = s_["c"][0]
+                    tc = (s_ or {}).get("tc") or ""
+                    if par is None:
+                        par = common.parents(fn["body"])
+                    under_flag = False
+                    cur = c
+                    while cur["id"] in par:
+                        p_ = par[cur["id"]]
+                        if p_["k"] == "IfStmt" and any(y["k"] == "DeclRefExpr" and y["n"] == "cmdFloatRepFlag" for y in walk(p_["c"][0])) \
+                                and any(y is cur for y in walk(p_["c"][1])):
+                            under_flag = True
+                        cur = p_
+                    out.append((name, c["l"], m.group(0), prec, tc, under_flag))
+                k += 1
+    return out
+
+
+def constant_precision(rep, rule="L7"):
+    """Every place of the units that write artefacts (generated C, Java, Lisp, .fm text) where a floating value is turned into
+    text with a %g/%e conversion prints enough digits for the text to denote the same value again: 17 for a value of double
+    type, 9 for a value of single type (the type of the argument before its promotion to double).  FLT_DIG + 2 is 8 and
+    DBL_DIG + 2 is 17: the analogy does not hold for singles.  The user-requested -Wfloatrep path is excluded."""
+    dig = common.map_units(ARTEFACT_UNITS, _float_convs_digest, "compiler", all_trees=True)
+    n = 0
+    for u in sorted(dig):
+        base = u.split("/")[-1]
+        for name, line, conv, prec, tc, under_flag in dig[u]:
+            if under_flag:
+                rep.note("%s: -Wfloatrep path at %s:%d uses the user's requested precision (excluded)" % (rule, base, line))
+                continue
+            n += 1
+            need = 9 if tc == "f32" else 17
+            key = "round-trip-digits:%s:%s" % (base, name)
+            if prec is not None and prec >= need:
+                rep.ok(rule, key + "@%d" % line, sample={"conversion": conv, "digits": prec, "needed": need})
+            else:
+                rep.violation(rule, key, "%s:%d (%s)" % (base, line, name),
+                              "a %s value is written with `%s` and %s significant digits; %d are needed for the text to read back as "
+                              "the same value: a folded constant emitted into generated code or a .fm file denotes a neighbouring "
+                              "value (about 1.5%% of single floats with 8 digits), while the unfolded program converts the literal "
+                              "exactly" % ("single-float" if need == 9 else "double-float", conv, prec, need))
+    rep.floor("float-to-text conversions in the artefact writers", n, 1)
+
+
 def run(tier, only=None):
     rep = common.Report("C19", tier, EXPLANATION)
     # ---- L5 and L4 first: they need nothing from C04 ----
     l5(rep)
     sentinels(rep, "L6")
+    constant_precision(rep, "L7")
     deferred = None
     try:
         l4(rep)
